@@ -81,8 +81,12 @@ def tr_params_star(tr):
 def surf_param_text(s):
     d = s.get('d', 1)
     out = []
-    for v in s['p']:
-        if d == 1:
+    p = list(s['p'])
+    raw_last = (s['k'] in ('kx', 'ky', 'kz') and len(p) == 3) or (s['k'] in ('k/x', 'k/y', 'k/z') and len(p) == 5)
+    for i, v in enumerate(p):
+        if raw_last and i == len(p) - 1:
+            out.append(str(v))      # the sheet selector is not a length
+        elif d == 1:
             out.append(str(v))
         else:
             out.append(repr(v / d))
